@@ -941,6 +941,36 @@ def run(rep, tier):
             PASS_THROUGH + ["fmt::format", "Arguments::new", re.compile(r"Argument::<'_>::new_display|Argument::new_display"),
                             "Index>::index"])]
         rep.ob("R30.4", "world_name only indexes and formats", not wcalls, f"{wcalls}", g.loc())
+        # qualifier(): whenever the owner's package differs from `this`, the reference is qualified *and recorded*
+        qf = c.method("PkgResolver", "qualifier")
+        rep.saw(qf)
+        tests = []
+        for b, ft, tt in bool_switches_on_call(qf, re.compile(r"PartialEq.*::(ne|eq)$")):
+            call = qf.switch_origin(b)
+            while call.get("kind") == "un":
+                call = call["a"]
+            call = call["call"]
+            sides = [peel(qf, qf.origin(a)) for a in call.args]
+            if any(o.get("kind") == "arg" and o.get("n") == 2 for o in sides):
+                differ = tt if call.matches(re.compile(r"::ne$")) else ft
+                other = [o for o in sides if not (o.get("kind") == "arg" and o.get("n") == 2)]
+                tests.append((b, differ, other[0] if other else None))
+        rep.floor("R30.4", "owner-package / `this` comparisons in qualifier", len(tests), 3)
+        for n, (b, differ, other) in enumerate(tests):
+            src = describe(qf, other) if other else "?"
+            src = re.sub(r"^result of (std::collections::)?(crate::)?", "", src)
+            if other and other.get("kind") == "call" and other["call"].matches(mp("get")):
+                src = "".join(fields_of(qf.origin(other["call"].args[0]))[-1:]).lstrip(".") or src
+            qs = [x for x in qf.calls("PkgResolver::qualify_package") if x.bb in qf.edge_region(b, differ)]
+            rep.ob("R30.4", f"qualifier: owner package ({src}) != this => the reference goes through qualify_package on every path",
+                   bool(qs) and qf.all_paths_pass(differ, qf.returns(), [x.bb for x in qs]), "a cross-package reference is left unqualified / unrecorded",
+                   qf.loc(b))
+            for x in qs:
+                same = other is not None and root_id(qf, qf.origin(x.args[2])) == root_id(qf, other)
+                rep.ob("R30.4", f"qualifier: the package qualified is the owner package that was compared ({src})", same, "", qf.loc(x.bb))
+        allq = qf.calls("PkgResolver::qualify_package")
+        rep.ob("R30.4", "qualifier: every qualify_package call is under such a comparison",
+               all(any(x.bb in qf.edge_region(b, d) for b, d, _ in tests) for x in allq) and len(allq) >= 3, f"{len(allq)} calls", qf.loc())
     rep.guard("R30.4", "package-name provenance", r4)
 
     # ================================================================================================ R30.5
@@ -1120,8 +1150,10 @@ def run(rep, tier):
             rep.ob("R30.6", f"generate: preprocess precedes {nm}", gen.dominates(pre.bb, x.bb), "", gen.loc(x.bb))
         rep.ob("R30.6", "generate: finish_imports is called on every path that goes on to the exports",
                gen.all_paths_pass(0, [one("export_funcs").bb, one("export_interface").bb, fin_.bb], [fi.bb]) and not gen.in_cycle(fi.bb), "", gen.loc(fi.bb))
-        rep.ob("R30.6", "generate: every successful return passes finish", not gen.in_cycle(fin_.bb) and
-               all(fin_.bb in gen.dom[r] or not _ok_return(gen, r) for r in gen.returns()), "", gen.loc(fin_.bb))
+        errs = [x.bb for x in gen.calls("FromResidual>::from_residual")]
+        rep.ob("R30.6", "generate: every return that is not an error propagation passes finish", not gen.in_cycle(fin_.bb) and
+               gen.all_paths_pass(0, gen.returns(), [fin_.bb] + errs) and not gen.all_paths_pass(0, gen.returns(), errs or [-1]),
+               "", gen.loc(fin_.bb))
     rep.guard("R30.6", "ordering", r6)
 
     # ================================================================================================ R30.7
@@ -1263,12 +1295,6 @@ def run(rep, tier):
                     ok = len(dests) == 1 and re.search(r"\b%s\b" % re.escape(next(iter(dests))), data) is not None
         rep.ob("R30.8", "finish: the recorded glue is written to <gen_dir>/ffi.mbt", ok, f"buffers {sorted(dests)}", sf.loc())
     rep.guard("R30.8", "link-package glue lands where its imports are recorded", r8)
-
-
-def _ok_return(f, r):
-    """does return block `r` possibly return Ok? (false when every path to it constructs Err / comes from a `?` early exit)"""
-    oks = [bb for bb, _, _, _ in f.aggregates("Result", "Ok")]
-    return any(r in f.reachable(bb) for bb in oks) or not oks
 
 
 ASYNC_TESTS = ["AsyncExportPlan::is_async", "AsyncImportPlan::is_async", "AsyncExportPlan::signature_is_async",
